@@ -5,6 +5,7 @@ import (
 	"go/token"
 	"go/types"
 	"sort"
+	"strings"
 
 	"golang.org/x/tools/go/ssa"
 )
@@ -148,6 +149,68 @@ func (c *Check) paramSliceBounds() {
 		}
 	}
 	c.Extra["param_slice_bounds"] = len(sites)
+	// the same for a parameter used directly as an index: an upper-bound test in the callee
+	// (index >= len(x)) does not protect against the -1 a caller computes as len(y)-1
+	type isite struct {
+		f   *ssa.Function
+		ia  ssa.Instruction
+		par *ssa.Parameter
+	}
+	var isites []isite
+	for f := range p.AllFns {
+		if !fnInModule(f) || f.Blocks == nil || f.Synthetic != "" {
+			continue
+		}
+		pk := fnPkgPath(f)
+		if pk == modPath+"/profile" || pk == modPath+"/internal/proftest" || strings.Contains(pk, "third_party") {
+			continue
+		}
+		for _, b := range f.Blocks {
+			for _, ins := range b.Instrs {
+				var idx ssa.Value
+				switch x := ins.(type) {
+				case *ssa.IndexAddr:
+					if _, isSlice := x.X.Type().Underlying().(*types.Slice); isSlice {
+						idx = x.Index
+					}
+				}
+				par, ok := idx.(*ssa.Parameter)
+				if !ok || par.Parent() != f {
+					continue
+				}
+				if bt, ok := par.Type().Underlying().(*types.Basic); !ok || bt.Info()&types.IsInteger == 0 || bt.Info()&types.IsUnsigned != 0 {
+					continue
+				}
+				// only where the function itself tests the parameter against a length: it does
+				// not trust its callers with the upper bound, so the lower one is owed too
+				// (sort callbacks and the like, which test nothing, are the caller's business)
+				tested := false
+				for _, b2 := range f.Blocks {
+					for _, i2 := range b2.Instrs {
+						if cmp, ok := i2.(*ssa.BinOp); ok {
+							if (cmp.X == ssa.Value(par) && lenArg(cmp.Y) != nil) || (cmp.Y == ssa.Value(par) && lenArg(cmp.X) != nil) {
+								tested = true
+							}
+						}
+					}
+				}
+				if !tested {
+					continue
+				}
+				isites = append(isites, isite{f, ins, par})
+			}
+		}
+	}
+	sort.Slice(isites, func(i, j int) bool { return isites[i].ia.Pos() < isites[j].ia.Pos() })
+	for i, s := range isites {
+		key := fmt.Sprintf("param-index:%s:%s#%d", fnName(s.f), s.par.Name(), i)
+		if why := nonNegAt(s.par, s.ia.Block(), 0); why != "" {
+			c.ok("C09-R8", key, p.relFile(s.ia.Pos()), "the index taken from parameter "+s.par.Name()+" of "+fnName(s.f)+" is never negative", why)
+		} else {
+			c.bad("C09-R8", key, p.relFile(s.ia.Pos()), fnName(s.f)+" indexes with its parameter "+s.par.Name()+", which is tested against the length only, and a caller can pass a negative value (len(list)-1 of an empty list): index out of range [-1]")
+		}
+	}
+	c.Extra["param_index_sites"] = len(isites)
 	if len(sites) == 0 {
 		c.undecided("C09-R8", "param-bound", "", "no slice expression bounded by an integer parameter found outside package profile (selectTopNodes was one)")
 	}
